@@ -7,7 +7,17 @@ sys.path.insert(0, os.path.dirname(os.path.abspath(__file__)))
 import driftsig  # noqa: E402
 
 
+def dump_patterns():
+    """`python basesrv.py --patterns`: the baseline's regular expressions as JSON {name: hex}"""
+    import json
+    import gen_regexes
+    print(json.dumps({name: pat.hex() for name, pat, _ in gen_regexes.collect()}))
+
+
 def main():
+    if "--patterns" in sys.argv:
+        dump_patterns()
+        return
     import multidecoder
     assert "baseline_src" in multidecoder.__file__, multidecoder.__file__
     s = driftsig.Session()
